@@ -1,3 +1,129 @@
+// faketool stands in for shellcheck and pyflakes. It reads its whole stdin, logs what it saw and
+// behaves as directed by a marker "FT:<spec>" inside the script (spec items separated by ','):
+//
+//	ok            no issues (default)
+//	issues=<k>    print k issues (shellcheck JSON or pyflakes text)
+//	exit=<code>   exit with the status without printing anything
+//	kill          kill itself with SIGKILL
+//	garbage       print text that is not the tool's output format
+//	slow=<ms>     sleep before answering
+//	noread        exit(0) without reading stdin (shellcheck prints "[]")
+//
+// Log (FAKETOOL_LOG, O_APPEND, one write per record):
+//
+//	start <pid> <mode> <unixnano>
+//	stdin <pid> <sha1> <len> <file with a copy, if FAKETOOL_DIR is set>
+//	end   <pid> <unixnano> <behaviour>
 package main
 
-func main() {}
+import (
+	"crypto/sha1"
+	"fmt"
+	"io"
+	"os"
+	"path/filepath"
+	"regexp"
+	"strconv"
+	"strings"
+	"syscall"
+	"time"
+)
+
+var logf *os.File
+
+func logRec(format string, args ...interface{}) {
+	if logf == nil {
+		return
+	}
+	logf.WriteString(fmt.Sprintf(format, args...) + "\n")
+}
+
+var markRe = regexp.MustCompile(`FT:([a-z0-9=,]+)`)
+
+func main() {
+	if p := os.Getenv("FAKETOOL_LOG"); p != "" {
+		logf, _ = os.OpenFile(p, os.O_CREATE|os.O_WRONLY|os.O_APPEND, 0o644)
+	}
+	mode := "pyflakes"
+	for i, a := range os.Args {
+		if a == "-f" && i+1 < len(os.Args) && os.Args[i+1] == "json" {
+			mode = "shellcheck"
+		}
+	}
+	pid := os.Getpid()
+	logRec("start %d %s %d %s", pid, mode, time.Now().UnixNano(), strings.Join(os.Args[1:], " "))
+	if os.Getenv("FAKETOOL_NOREAD") == "1" {
+		if mode == "shellcheck" {
+			fmt.Print("[]")
+		}
+		logRec("end %d %d noread", pid, time.Now().UnixNano())
+		return
+	}
+	in, _ := io.ReadAll(os.Stdin)
+	sum := sha1.Sum(in)
+	copyPath := "-"
+	if d := os.Getenv("FAKETOOL_DIR"); d != "" {
+		copyPath = filepath.Join(d, fmt.Sprintf("%d.stdin", pid))
+		os.WriteFile(copyPath, in, 0o644)
+	}
+	logRec("stdin %d %x %d %s", pid, sum, len(in), copyPath)
+
+	spec := "ok"
+	if m := markRe.FindSubmatch(in); m != nil {
+		spec = string(m[1])
+	}
+	issues, exit, kill, garbage := 0, 0, false, false
+	for _, it := range strings.Split(spec, ",") {
+		kv := strings.SplitN(it, "=", 2)
+		val := 0
+		if len(kv) == 2 {
+			val, _ = strconv.Atoi(kv[1])
+		}
+		switch kv[0] {
+		case "issues":
+			issues = val
+		case "exit":
+			exit = val
+		case "kill":
+			kill = true
+		case "garbage":
+			garbage = true
+		case "slow":
+			time.Sleep(time.Duration(val) * time.Millisecond)
+		}
+	}
+	logRec("end %d %d %s", pid, time.Now().UnixNano(), spec)
+	switch {
+	case kill:
+		syscall.Kill(pid, syscall.SIGKILL)
+		time.Sleep(time.Second)
+	case exit != 0:
+		os.Exit(exit)
+	case garbage:
+		fmt.Print("this is not the output format <<<\n")
+		if mode == "shellcheck" {
+			os.Exit(0)
+		}
+	case mode == "shellcheck":
+		var sb strings.Builder
+		sb.WriteString("[")
+		for i := 0; i < issues; i++ {
+			if i > 0 {
+				sb.WriteString(",")
+			}
+			fmt.Fprintf(&sb, `{"file":"-","line":%d,"endLine":%d,"column":%d,"endColumn":%d,"level":"warning","code":%d,"message":"fake issue %d.","fix":null}`, i+2, i+2, i+1, i+3, 2000+i, i)
+		}
+		sb.WriteString("]")
+		fmt.Print(sb.String())
+		if issues > 0 {
+			os.Exit(1)
+		}
+	default: // pyflakes
+		for i := 0; i < issues; i++ {
+			fmt.Printf("<stdin>:%d:%d: fake issue %d\n", i+1, i+1, i)
+		}
+		if issues > 0 {
+			os.Exit(1)
+		}
+	}
+}
